@@ -169,6 +169,9 @@ impl Check for Handshake {
     fn components(&self) -> serde_json::Value {
         serde_json::json!({"real": ["stellar_access::ownable::* (trait defaults, #[only_owner])", "examples/ownable (from source)", "stellar_access::access_control::{transfer_admin_role, accept_admin_transfer, renounce_admin, #[only_admin]}", "stellar_access::role_transfer::*", "soroban host: temporary storage TTL with min_temp_entry_ttl = 1, auth-tree matching"], "stub": ["Wallet (accept-all signature check)"]})
     }
+    fn clock_step(&self, n: u32) -> Option<Step> {
+        Some(Step::Advance { n })
+    }
     fn property_of(&self, check: &str) -> std::vec::Vec<&'static str> {
         // the guarded-function clauses are shared with C06 (owner / admin only; nobody after renouncing)
         if check.starts_with("holder.keeps_control") || check == "fail.no_trace" {
